@@ -19,6 +19,8 @@ from .loader import FuncInfo
 from .loader import short
 
 VERIF = Path(__file__).resolve().parent.parent
+# scratch evaluations (seeded changes, refactorings) write their evidence elsewhere
+EVIDENCE = Path(os.environ.get("VERIF_EVIDENCE_DIR") or (VERIF / "evidence"))
 
 
 @dataclass
@@ -218,7 +220,7 @@ def write_evidence(
         "wall_s": round(wall, 3),
         "violations": len(violations),
     }
-    out_dir = VERIF / "evidence"
+    out_dir = EVIDENCE
     out_dir.mkdir(exist_ok=True)
     path = out_dir / f"{prop}.json"
     path.write_text(json.dumps(ev, indent=1, sort_keys=False, default=str) + "\n")
@@ -226,7 +228,7 @@ def write_evidence(
 
 
 def write_replay(prop: str, idx: int, f: Finding) -> Path:
-    d = VERIF / "evidence" / f"{prop}.findings"
+    d = EVIDENCE / f"{prop}.findings"
     d.mkdir(parents=True, exist_ok=True)
     safe = f.rule.replace(".", "_")
     path = d / f"{safe}-{idx}.json"
@@ -235,7 +237,7 @@ def write_replay(prop: str, idx: int, f: Finding) -> Path:
 
 
 def clean_replays(prop: str) -> None:
-    d = VERIF / "evidence" / f"{prop}.findings"
+    d = EVIDENCE / f"{prop}.findings"
     if d.is_dir():
         for p in d.iterdir():
             p.unlink()
